@@ -429,6 +429,7 @@ class Explorer:
         self.decide_timeout_ms = decide_timeout_ms
         self.max_paths = max_paths
         self.max_decisions = max_decisions
+        self.max_explore_seconds = int(os.environ.get("PYVC_EXPLORE_SECONDS", "600"))
         self.summary_stack = []
         self.use_fallback = True
         self.collect_witnesses = 0
@@ -477,9 +478,15 @@ class Explorer:
         I.summaries = summaries
         I.loop_contracts = loop_contracts
         seen_ob = res.obligations
+        t_explore0 = time.time()
         while self.work:
             prefix = self.work.pop()
             res.paths += 1
+            if time.time() - t_explore0 > self.max_explore_seconds:
+                # never hang: a harness whose exploration does not finish within its wall-clock budget is UNDECIDED (exit 2)
+                res.error = ("unsupported", "exploration budget of %d s exceeded after %d paths (path explosion: needs a contract / guarded merge)" % (
+                    self.max_explore_seconds, res.paths))
+                break
             if res.paths > self.max_paths:
                 res.error = ("unsupported", "more than %d paths" % self.max_paths)
                 break
